@@ -1,4 +1,5 @@
 """C04 — variable values are coerced exactly as the specification prescribes."""
+import re
 from collections import Counter
 
 from vt import docgen, exec_common as X, inputs_common as I, refexec, smodel, values
@@ -111,7 +112,8 @@ def named_by_errors(resp, op, name):
     for e in resp.get("errors") or []:
         if not isinstance(e, dict):
             continue
-        if ("$" + name) in str(e.get("message")):
+        # the variable's name as a whole word (with or without '$'): '$v1' is not named by an error about '$v10'
+        if re.search(r"(?<![A-Za-z0-9_])\$?%s(?![A-Za-z0-9_])" % re.escape(name), str(e.get("message"))):
             return True
         span = op.vardef_spans.get(name)
         for loc in e.get("locations") or []:
